@@ -45,7 +45,9 @@ FileClass == LET X == ObjOfJson(Rec.obj)  sel == Seq0(Rec.sel) IN
 
 (* ---- container *)
 A == Arg(Rec.arg.kind, Seq0(Rec.arg.list), Seq0(Rec.arg.mask), Rec.arg.lo, Rec.arg.hi, Rec.arg.bs, Rec.arg.be)
-C == TLCEval([files |-> FilesOf(Rec.files), selected |-> Rec.selected, irreducible |-> FALSE, selbands |-> << >>])
+C == TLCEval(LET f == FilesOf(Rec.files) IN        \* (the recorded selection is not part of a record: the identity stands in)
+             [files |-> f, selected |-> Rec.selected, irreducible |-> FALSE,
+              selbands |-> IF "eig" \in DOMAIN f THEN Ident(f["eig"].dim.NB) ELSE << >>])
 ContClass == ArgClass(C, A, Rec.again)
 ContClauses ==
    LET cls == ContClass
@@ -56,7 +58,7 @@ ContClauses ==
        sound == ~(HasFile(C, "chk") /\ HasFile(C, "eig") /\ C.files["chk"].attr["num_bands"] # NbNow(C))
        m == ContSelect(C, A, Rec.again)
    IN [ in_model     |-> /\ A.kind \in {"list", "mask", "window", "none"}
-                         /\ (A.bs = NoIdx \/ A.bs \in 0..NbNow(C)) /\ (A.be = NoIdx \/ A.be \in 0..NbNow(C))
+                         /\ (~HasFile(C, "eig") \/ ((A.bs = NoIdx \/ A.bs \in 0..NbNow(C)) /\ (A.be = NoIdx \/ A.be \in 0..NbNow(C))))
                          /\ A.lo >= InfLo /\ A.hi <= InfHi,
         refuse       |-> cls \in MustRefuse => ~ok,
         refuse_unchanged |-> cls \in MustRefuse => after = C.files,
